@@ -41,6 +41,7 @@ def dispatch (line : String) : String :=
       | "alloc" => handleAlloc args obs
       | "allocinstall" => handleAllocInstall args obs
       | "thr" => handleThr args obs
+      | "thrq" => handleThrQ obs
       | "pan" => handlePan rest
       | "async" => handleAsync obs
       | "selfuse" => handleSelfUse args obs
